@@ -22,7 +22,7 @@ LEVEL = "exploration"
 RUN_WALL_S = 120
 TIERS = {
     "quick": {"cases": 60_000, "episode": 250, "selftest": 96, "wall_cap_s": 600, "shrink_s": 45},
-    "thorough": {"cases": 3_000_000, "episode": 500, "selftest": 1024, "wall_cap_s": 3 * 3600, "shrink_s": 120, "distinct_sample": 8},
+    "thorough": {"cases": 3_000_000, "episode": 500, "selftest": 1024, "wall_cap_s": 3 * 3600, "shrink_s": 120},
 }
 RULE = ("each case draws (source kind, consumer, prefix k, read size, trim-threshold knob, clock/progress, "
         "packet sequence, socket write sizes/delays/recv fragmentation or BufferedReader buffer size/short raw reads) "
